@@ -1168,10 +1168,10 @@ fn push_tcp_case(out: &mut Out, lazy: bool, peer0: Peer, steps: &[TcpStep]) {
                     (Outcome::Err(1, ..), Peer::Garbage) | (Outcome::Err(14, ..), Peer::Garbage) => 1,
                     // over TCP the client usually READS the non-HTTP/2 bytes before the request is
                     // cancelled: h2 raises a connection error (FRAME_SIZE_ERROR) and the call gets
-                    // what C04's HTTP/2 table makes of it, UNKNOWN "h2 protocol error: ..".  Recorded
-                    // (histogram tcp_outcomes), same class: an established connection killed by the
-                    // peer with the request in flight
-                    (Outcome::Err(2, _, _, m), Peer::Garbage) if m.starts_with("h2 protocol error") => 1,
+                    // what C04's HTTP/2 table makes of it: INTERNAL "h2 protocol error: .." since the
+                    // fix of F-C04c (UNKNOWN before it).  Recorded (histogram tcp_outcomes), same class:
+                    // an established connection killed by the peer with the request in flight
+                    (Outcome::Err(2 | 13, _, _, m), Peer::Garbage) if m.starts_with("h2 protocol error") => 1,
                     (x, p) => {
                         let why = match p {
                             Peer::Healthy => format!("tcp: call {} failed ({:?}) although a healthy server listens: no recovery", i, x),
